@@ -18,6 +18,9 @@ def g08(pid, tier, replay):
                   [("GraphMachine", "GraphMachine_quick.cfg", 900), ("GraphMachine", "GraphMachine_depth2.cfg", 3000),
                    ("GraphMachine", "GraphMachine_types2.cfg", 3000)],
         "proofs": ["GraphAlgebra"],
+        # every list of the 512-element universe through every removal and every relating of a node (always); relating a
+        # list at every position for a sample of ordered pairs (quick) / all ordered pairs (thorough)
+        "universe": ("GraphLaws_export.cfg", 1500 if tier == Q else 0),
         "export": (96, 19) if tier == Q else (640, 23),
         "gens": [{"args": ["--mode", "edit", "--n", "400" if tier == Q else "4000", "--len", "10", "--ids", "5"]},
                  {"args": ["--mode", "edit", "--n", "60" if tier == Q else "600", "--len", "30", "--ids", "14", "--rich", "0.05"]}],
